@@ -34,8 +34,8 @@ theorem startDo_blocked (s : St) (m : Meth) (skip : Bool) (tp : Nat) (fs k : Lis
       · exact hE _ _
       · exact blocked_wait _ _ _ _ _
 
-theorem describeStart_blocked (s : St) (fs k : List Fr) (retK : St → Val → St)
-    (hR : ∀ s' v, Blocked (retK s' v)) : Blocked (describeStart s fs k retK) := by
+theorem describeStart_blocked (s : St) (rd : Nat) (fs k : List Fr) (retK : St → Val → St)
+    (hR : ∀ s' v, Blocked (retK s' v)) : Blocked (describeStart s rd fs k retK) := by
   unfold describeStart
   repeat' split
   all_goals first
@@ -61,12 +61,12 @@ theorem afterReset_blocked (s : St) (n : AfterReset) (k : List Fr)
     Blocked (afterReset s n k retK) := by
   unfold afterReset
   cases n with
-  | redirect loc =>
+  | redirect loc n =>
     cases loc <;> simp only []
     all_goals first
       | exact hR _ _
-      | exact describeStart_blocked _ _ _ _ hR
-  | switchTcp a => exact describeStart_blocked _ _ _ _ hR
+      | exact describeStart_blocked _ _ _ _ _ hR
+  | switchTcp a => exact describeStart_blocked _ _ _ _ _ hR
 
 theorem resetStart_blocked (c : Cfg) (s : St) (n : AfterReset) (k : List Fr)
     (retK : St → Val → St) (hR : ∀ s' v, Blocked (retK s' v)) :
@@ -87,9 +87,9 @@ theorem setupResp_blocked (c : Cfg) (s : St) (a : SetupArgs) (p : Proto) (r : Re
   · exact setupStart_blocked _ _ _ _ _ hR
   · exact resetStart_blocked _ _ _ _ _ hR
 
-theorem describeResp_blocked (c : Cfg) (s : St) (r : Resp) (k : List Fr)
+theorem describeResp_blocked (c : Cfg) (s : St) (rd : Nat) (r : Resp) (k : List Fr)
     (retK : St → Val → St) (hR : ∀ s' v, Blocked (retK s' v)) :
-    Blocked (describeResp c s r k retK) := by
+    Blocked (describeResp c s rd r k retK) := by
   unfold describeResp
   repeat' split
   all_goals first
@@ -128,11 +128,11 @@ theorem frameRet_blocked (c : Cfg) (f : Fr) (k : List Fr) (retK : St → Val →
       | exact hR _ _
       | (repeat' split
          all_goals exact hR _ _)
-  | describeK =>
+  | describeK rd =>
     cases v <;> simp only []
     all_goals first
       | exact hR _ _
-      | exact describeResp_blocked _ _ _ _ _ hR
+      | exact describeResp_blocked _ _ _ _ _ _ hR
   | announceK =>
     cases v <;> simp only []
     all_goals first
